@@ -1,3 +1,5 @@
+pub mod c01;
+pub mod c02;
 pub mod c03;
 pub mod c06;
 pub mod c07;
@@ -11,6 +13,8 @@ pub const ALL: [&str; 20] = ["C01", "C02", "C03", "C04", "C05", "C06", "C07", "C
 
 pub fn run(id: &str, r: &mut Runner) {
     match id {
+        "C01" => c01::run(r),
+        "C02" => c02::run(r),
         "C03" => c03::run(r),
         "C06" => c06::run(r),
         "C07" => c07::run(r),
